@@ -316,9 +316,14 @@ package sio
 //@   requires esValid(n.eventHandlers)
 //@   ensures len(handler) == 0 ==> len(n.eventHandlers.events[eventName]) == 0 && len(n.eventHandlers.eventsOnce[eventName]) == 0 [C18.api.offevent.Namespace]
 
+// OffAll empties BOTH lists of every event (an event that has only Once handlers has no entry in the On map).
 //@ func (*eventHandlerStore).offAll
 //@   opt safety off
+//@   requires esValid(e)
 //@   modifies mapof(e.events), mapof(e.eventsOnce), allelems(*eventHandler)
+//@   loop 0 invariant forall n string :: visited(n) ==> !(n in e.events) [C18.es.offall.inv.on]
+//@   loop 1 invariant (forall n string :: !(n in e.events)) && (forall n string :: visited(n) ==> !(n in e.eventsOnce)) [C18.es.offall.inv.once]
+//@   ensures forall n string :: !(n in e.events) && !(n in e.eventsOnce) [C18.es.offall.empties]
 
 // ---------------------------------------------------------------------------------------------
 // C03: acknowledgements. The reply path (call) and the timer path exclude each other through the two flags,
@@ -511,6 +516,7 @@ package sio
 //@ func (*clientSocket).onConnect
 //@   opt safety off
 //@   ghost rec int = 0 - 1
+//@   ghost flushed int = 0
 //@   ghost hadpid bool = false
 //@   ghost mypid string = ""
 //@   callsite decode skip
@@ -522,6 +528,9 @@ package sio
 //@   callsite (*clientSocket).emitBuffered skip
 //@     requires rec == ((v.PID != "" && hadpid && mypid == v.PID) ? 1 : 0) [C08.cli.recovered]
 //@     requires s.state == clientSocketConnStateConnected [C15.connected.before.flush]
+//@     update flushed = flushed + 1
+//@   callsite forEach skip
+//@     requires recv == s.connectHandlers ==> flushed == 1 [C15.flush.before.connect.handlers]
 
 // Server: the session is saved (id, private id, rooms as they are now) BEFORE the socket leaves its rooms; a socket
 // that had connected leaves all rooms, the namespace and the connection, is marked disconnected, and only then the
